@@ -184,6 +184,12 @@ def run_case(case):
                         raise Violation("non-positive-interval", f"{what}: {ents}")
                 else:
                     check_absorption(ents, P_, eff, what)
+                for extra in got["tiers"][2:]:
+                    # a second interval tier holding the same entries is written the same way as the first
+                    if not _same_entries(extra["entries"], ents):
+                        raise Violation("later-tier-treated-differently", f"{what}: tier {extra['name']!r} written as {extra['entries']}, "
+                                        f"the first tier with the same entries as {ents}")
+                    cl.add("two_interval_tiers")
     nt = bool(cl & {"sliver_first", "sliver_middle", "sliver_last", "sliver_chain", "override_ok", "override_rejected"})
     return {"classes": sorted(cl), "nontrivial": nt}
 
@@ -216,7 +222,7 @@ def cases(draw):
     it = {"type": "interval", "name": "iv", "entries": entries, "minT": span_lo, "maxT": span_hi, "style": "dec"}
     pts = [[x, "p"] for x in sorted({span_lo, (span_lo + span_hi) / 2, span_hi}) if draw(st.booleans())]
     pt = {"type": "point", "name": "pt", "entries": pts, "minT": span_lo, "maxT": span_hi, "style": "dec"}
-    spec = {"tiers": [it, pt], "minT": span_lo, "maxT": span_hi, "style": "dec"}
+    spec = {"tiers": [it, pt] + ([dict(it, name="iv2")] if draw(st.booleans()) else []), "minT": span_lo, "maxT": span_hi, "style": "dec"}
     case = {"tg": spec, "theta": theta, "min_override": None, "max_override": None}
     r = draw(st.integers(0, 9))
     times = [x for tr in spec["tiers"] for e in tr["entries"] for x in e[:-1]]
